@@ -105,7 +105,9 @@ def run(case):
             return
         kw = {"k": k, "weight_type": wt}
         kw.update(kw_extra)
-        if variant.startswith("noise"):
+        if variant == "solve_twice":
+            obs = drivers.observe(dict(case, cls=cls, kw=kw, solve_twice=True), G)
+        elif variant.startswith("noise"):
             # solver answers within tolerance: every value read from the solver shifted by -/+ 5e-10
             from .. import faults
             with faults.ValueNoise(-5e-10 if variant.endswith("-") else 5e-10):
@@ -256,6 +258,7 @@ def run(case):
             one(kmode, wt, "plain", {})
             if len(viol) > 4:
                 return _ret(viol, nt, tags)
+    one("width", "int", "solve_twice", {})
     one("width", "int", "noise-", {})
     one("width", "int", "noise+", {})
     if not case["full"]:
